@@ -286,6 +286,35 @@ def mangle(cls, name):
 # obligations and verdicts
 
 
+_POOL_REPO = None
+
+
+def pool_repo(root):
+    """The repository a pool worker analyses: the parent's Repo object (inherited through fork, so that
+    in-memory variants of the tree are seen by the workers), else the tree on disk."""
+    if _POOL_REPO is not None and str(_POOL_REPO.root) == str(root):
+        return _POOL_REPO
+    return Repo(root)
+
+
+def pmap(repo, fn, jobs, procs):
+    """pool.map over forked workers that share `repo`; sequential when no pool can be made
+    (inside another pool's worker)."""
+    import multiprocessing as mp
+
+    global _POOL_REPO
+    _POOL_REPO = repo
+    try:
+        if mp.current_process().daemon:
+            raise RuntimeError('nested pool')
+        with mp.get_context('fork').Pool(max(1, min(procs, len(jobs)))) as pool:
+            return pool.map(fn, jobs)
+    except (RuntimeError, AssertionError, OSError):
+        return [fn(j) for j in jobs]
+    finally:
+        _POOL_REPO = None
+
+
 class Check:
     """Collects the obligations of one property run."""
 
